@@ -224,7 +224,7 @@ type mixWeights struct {
 	load, store, loadOrStore, loadAndStore, loadOrCompute, compute, loadAndDelete, del, clear, rng, filler, size int
 	// cache only
 	getExp, getTTL, refresh, delExpired int
-	setDef, setCB int
+	setDef, setCB                       int
 }
 
 var defaultMapMix = mixWeights{load: 20, store: 18, loadOrStore: 10, loadAndStore: 8, loadOrCompute: 8, compute: 12, loadAndDelete: 8, del: 8, clear: 3, rng: 3, filler: 8}
